@@ -46,6 +46,8 @@ enum Op {
 }
 
 struct Harness {
+	/// preemption bound (quick, thorough)
+	bounds: (usize, usize),
 	name: &'static str,
 	universe: &'static str,
 	prelude: Vec<&'static str>,
@@ -55,19 +57,19 @@ struct Harness {
 fn harnesses(tier: Tier) -> Vec<Harness> {
 	let base5 = vec!["B(m1)", "B(m2)", "B(m3)", "B(m4)"];
 	let mut v = vec![
-		Harness { name: "a:competing-forks+reader", universe: "forks", prelude: base5.clone(), threads: vec![("peer1", vec![Op::B("m5")]), ("peer2", vec![Op::B("f5")]), ("reader", vec![Op::Read, Op::Read])] },
-		Harness { name: "b:header-first+block+reader", universe: "forks", prelude: base5.clone(), threads: vec![("hdr", vec![Op::H("m5")]), ("blk", vec![Op::B("m5")]), ("reader", vec![Op::Read])] },
-		Harness { name: "c:block+validate_tx+get_unspent", universe: "forks", prelude: base5.clone(), threads: vec![("peer", vec![Op::B("m5")]), ("pool", vec![Op::ValidateTx]), ("api", vec![Op::Unspent])] },
-		Harness { name: "d:miner-template+block", universe: "forks", prelude: base5.clone(), threads: vec![("miner", vec![Op::SetRoots]), ("peer", vec![Op::B("m5")])] },
+		Harness { bounds: (1, 2), name: "a:competing-forks+reader", universe: "forks", prelude: base5.clone(), threads: vec![("peer1", vec![Op::B("m5")]), ("peer2", vec![Op::B("f5")]), ("reader", vec![Op::Read, Op::Read])] },
+		Harness { bounds: (1, 2), name: "b:header-first+block+reader", universe: "forks", prelude: base5.clone(), threads: vec![("hdr", vec![Op::H("m5")]), ("blk", vec![Op::B("m5")]), ("reader", vec![Op::Read])] },
+		Harness { bounds: (1, 2), name: "c:block+validate_tx+get_unspent", universe: "forks", prelude: base5.clone(), threads: vec![("peer", vec![Op::B("m5")]), ("pool", vec![Op::ValidateTx]), ("api", vec![Op::Unspent])] },
+		Harness { bounds: (1, 2), name: "d:miner-template+block", universe: "forks", prelude: base5.clone(), threads: vec![("miner", vec![Op::SetRoots]), ("peer", vec![Op::B("m5")])] },
 		// every remaining public read path against a block writer and against a header writer
-		Harness { name: "r1:api-sweep+block", universe: "forks", prelude: base5.clone(), threads: vec![("api", (0..API_N / 2).map(Op::Api).collect()), ("peer", vec![Op::B("m5")])] },
-		Harness { name: "r2:api-sweep+header+fork", universe: "forks", prelude: base5.clone(), threads: vec![("api", (API_N / 2..API_N).map(Op::Api).collect()), ("peer", vec![Op::H("m5"), Op::B("f5")])] },
+		Harness { bounds: (1, 1), name: "r1:api-sweep+block", universe: "forks", prelude: base5.clone(), threads: vec![("api", (0..API_N / 2).map(Op::Api).collect()), ("peer", vec![Op::B("m5")])] },
+		Harness { bounds: (1, 1), name: "r2:api-sweep+header+fork", universe: "forks", prelude: base5.clone(), threads: vec![("api", (API_N / 2..API_N).map(Op::Api).collect()), ("peer", vec![Op::H("m5"), Op::B("f5")])] },
 	];
 	if tier == Tier::Thorough {
-		v.push(Harness { name: "a2:reorg+reader", universe: "forks", prelude: vec!["B(m1)", "B(m2)", "B(m3)", "B(m4)", "B(m5)", "B(m6)", "B(f5)", "B(f6)"], threads: vec![("peer1", vec![Op::B("f7")]), ("reader", vec![Op::Read, Op::Unspent, Op::Read])] });
-		v.push(Harness { name: "g:validate+header", universe: "forks", prelude: base5.clone(), threads: vec![("validator", vec![Op::Validate]), ("hdr", vec![Op::H("m5")]), ("peer", vec![Op::B("f5")])] });
-		v.push(Harness { name: "e:compact+block+reader", universe: "long", prelude: vec!["*main"], threads: vec![("compactor", vec![Op::Compact]), ("peer", vec![Op::B("x91")]), ("reader", vec![Op::Read, Op::Unspent])] });
-		v.push(Harness { name: "f:segmenter+block", universe: "long", prelude: vec!["*main"], threads: vec![("server", vec![Op::Segmenter]), ("peer", vec![Op::B("x91")])] });
+		v.push(Harness { bounds: (1, 1), name: "a2:reorg+reader", universe: "forks", prelude: vec!["B(m1)", "B(m2)", "B(m3)", "B(m4)", "B(m5)", "B(m6)", "B(f5)", "B(f6)"], threads: vec![("peer1", vec![Op::B("f7")]), ("reader", vec![Op::Read, Op::Unspent, Op::Read])] });
+		v.push(Harness { bounds: (1, 1), name: "g:validate+header", universe: "forks", prelude: base5.clone(), threads: vec![("validator", vec![Op::Validate]), ("hdr", vec![Op::H("m5")]), ("peer", vec![Op::B("f5")])] });
+		v.push(Harness { bounds: (1, 1), name: "e:compact+block+reader", universe: "long", prelude: vec!["*main"], threads: vec![("compactor", vec![Op::Compact]), ("peer", vec![Op::B("x91")]), ("reader", vec![Op::Read, Op::Unspent])] });
+		v.push(Harness { bounds: (1, 1), name: "f:segmenter+block", universe: "long", prelude: vec!["*main"], threads: vec![("server", vec![Op::Segmenter]), ("peer", vec![Op::B("x91")])] });
 	}
 	v
 }
@@ -488,8 +490,7 @@ fn run(tier: Tier, shard: usize, n: usize) -> Report {
 	uni::init_thread();
 	let mut rep = Report::new();
 	let sc = uni::Scratch::new("c17");
-	let bound = tier.pick(1, 2);
-	rep.extra.insert("max_preemption_bound_completed".into(), json!(bound));
+	rep.extra.insert("max_preemption_bound_completed".into(), json!(tier.pick(1, 2)));
 	let mut trees: std::collections::HashMap<&'static str, Arc<Tree>> = Default::default();
 	for h in harnesses(tier) {
 		if !trees.contains_key(h.universe) {
@@ -508,6 +509,8 @@ fn run(tier: Tier, shard: usize, n: usize) -> Report {
 			}
 		}
 		let seq = sequential_fps(&h, &base, &sc, &cx);
+		let bound = tier.pick(h.bounds.0, h.bounds.1);
+		rep.extra.insert(format!("bound_preemptions:{}", h.name), json!(bound));
 		let mut ex = Explore { h: &h, base: &base, sc: &sc, cx: &cx, seq: &seq, bound, shard, n, top_ctr: 0, finals: BTreeSet::new(), dead: false, cap: tier.pick(4_000, 200_000) };
 		// bound 0 (the default schedule) is run by every shard; its alternatives are dealt out
 		ex.explore(vec![], &mut rep);
@@ -536,7 +539,7 @@ impl Engine for C17 {
 			rule: if tier == Tier::Quick {
 				"controlled-scheduler exploration of the real Chain with real OS threads (exactly one runs at a time; scheduling points = every util::RwLock acquisition, the LMDB writer lock, polling loops, thread start/exit; lock state mirrored incl. 'a parked writer blocks new readers'): EVERY schedule with at most 1 preemption of six harnesses (competing fork blocks + reader; header-first + block + reader; block + validate_tx + get_unspent; miner template + block; two sweeps calling every other public read API of Chain against a block writer and against a header writer + fork block). Oracles per schedule: no deadlock/livelock/panic, every operation returns what a correct node may return, a reported head names a stored block, observed total difficulty never decreases, final state in the set of final states of all sequential orders of the operations, validate(false) passes. A state = one complete schedule; transitions = scheduling decisions."
 			} else {
-				"as quick, with EVERY schedule with at most 2 preemptions and four more harnesses (reorg + readers; validate + header + fork block; compact + block + reader; segmenter + block)"
+				"as quick, with EVERY schedule with at most 2 preemptions of the first four harnesses and at most 1 preemption of the api sweeps and of four more harnesses (reorg + readers; validate + header + fork block; compact + block + reader; segmenter + block); the bound completed per harness is in the evidence"
 			},
 			assumptions: vec![
 				"scheduling points are lock operations: data not protected by util::RwLock / the LMDB writer lock would be invisible (safe Rust excludes it except for the mmap / env.resize unsafe sites, which sit behind these locks)".into(),
